@@ -7,10 +7,10 @@ property count.  Direct monitor of the property on the same kind of runs (harnes
 """
 from .. import refine, runs
 
-MODULE = "PyhmsVerif.Props.C02"
-THEOREMS = ['C02.C02_stored_evaluated', 'C02.eval_value', 'C02.C02_history_immutable', 'C02.step_first', 'C02.chain_all', 'C16.transparent']
+MODULE = 'PyhmsVerif.Props.C02Log'
+THEOREMS = ['C02.C02_stored_evaluated', 'C02.eval_value', 'C02.C02_history_immutable', 'C02.step_first', 'C02.chain_all', 'C16.transparent', 'C02.C02_stored_is_objective_value', 'C02.step_evlog', 'C02.evalReqs_backed']
 LEVEL = 'proof'
-LEVEL_TEXT = 'Theorems: one evaluation request returns exactly the value the objective returned (wrappers transparent) and logs that pair, a refused request returns the sentinel; in every reachable state every stored individual of every deme was evaluated while one of that deme generations was made, or carries the sentinel of an exhausted budget, or is the deme sprout seed (local deme starting point); recorded metaepochs never change in any later state. Tie: trace refinement (full histories as exact rationals in every dump; the model rejects unevaluated stored individuals) + monitor re-evaluating every stored genome, digests of recorded generations at all later boundaries, minimize().'
+LEVEL_TEXT = 'Theorems: one evaluation request returns exactly the value the objective returned (wrappers transparent) and logs that pair, a refused request returns the sentinel; in every reachable state every stored individual of every deme was evaluated while one of that deme generations was made, or carries the sentinel of an exhausted budget, or is the deme sprout seed (local deme starting point); recorded metaepochs never change in any later state. Tie: trace refinement (full histories as exact rationals in every dump; the model rejects unevaluated stored individuals) + monitor re-evaluating every stored genome, digests of recorded generations at all later boundaries, minimize(). NEW: C02_stored_is_objective_value — in every reachable state every stored individual is backed by a logged invocation of the objective by that deme, at that level, at exactly its genome, that returned exactly its fitness — or carries the sentinel of a refused request, or is the deme own seed (inductive invariant EvLog on well-formed trees).'
 LEVEL_NOTE = 'Trusted: Lean kernel + standard axioms; the hand-written tree model is tied to the code by trace refinement on sampled runs (the model refuses a generation that does not chain, a stored individual that was never evaluated, an iterate scipy never evaluated); numerical engines and objective values are environment; monitors trusted as failing-input search. Functional: the objective is deterministic (equal genomes get equal values) — needed to read -was evaluated with that value- as -carries the true fitness-; re-evaluation with a pristine copy of the objective is done by the monitor.'
 TECHNIQUE = "trace refinement against the Lean tree model (Tree.step re-executes real runs) + direct monitors"
 RULE = "case = one traced run of a random configuration (1-3 levels, engine per level from the full list, every shipped GSC/LSC kind plus user-defined ones, both stock sprout mechanisms and user-composed chains, hibernation on/off, both directions, decimal boxes, optional cutoff/precision/stats wrappers, shared or per-level problems); non-trivial = run with >= 2 demes and >= 2 metaepochs; distinct by configuration hash"
